@@ -22,7 +22,7 @@
 //	          concurrent part; the format-heavy clones must still yield their solo results.
 //	shape     (model) which nodes of Clone()'s globals are new objects vs shared with the original, compared
 //	          with `copy` of Tengo/Model/Clone.lean (driver line `cloneshape`).
-//	probes    dedicated inputs of the known findings O14 O15 O16 C08-K1 (KnownHits while they still fail).
+//	probes    dedicated inputs of the known findings O14 O15 O16 C08-K1 C08-K2 (KnownHits while they still fail).
 //
 // Oracles never use timing: only final states are compared.
 package main
@@ -962,6 +962,35 @@ func probeK1() (bool, string) {
 	return got != "(i 7)", "clone taken BEFORE original.ReplaceBuiltinModule sees out = " + got + " (alone: (i 7))"
 }
 
+// C08-K2: a builtin module attribute that is a mutable container is copied once at compile time
+// (AsImmutableMap) and then lives in the constant table all clones share
+func probeK2() (bool, string) {
+	mk := func() *tengo.Compiled {
+		mm := tengo.NewModuleMap()
+		mm.AddBuiltinModule("cfg", map[string]tengo.Object{"list": &tengo.Array{Value: []tengo.Object{
+			&tengo.Int{Value: 1}, &tengo.Int{Value: 2}, &tengo.Int{Value: 3}}}})
+		s := tengo.NewScript([]byte("cfg := import(\"cfg\")\nout := cfg.list[0]\nif id != 0 { cfg.list[0] = id }\n"))
+		s.SetImports(mm)
+		_ = s.Add("id", 0)
+		c, err := s.Compile()
+		if err != nil {
+			return nil
+		}
+		return c
+	}
+	c, solo := mk(), mk()
+	if c == nil || solo == nil {
+		return false, ""
+	}
+	a, b, alone := c.Clone(), c.Clone(), solo.Clone()
+	_ = a.Set("id", 77)
+	runOne(a, false)
+	runOne(b, false)
+	runOne(alone, false)
+	got, want := lib.Canon(b.Get("out").Object()), lib.Canon(alone.Get("out").Object())
+	return got != want, "clone b (id = 0) run after clone a (id = 77) sees out = " + got + " (alone: " + want + ")"
+}
+
 type c08probe struct {
 	id, sig, input string
 	run            func() (bool, string)
@@ -972,6 +1001,7 @@ var c08probes = []c08probe{
 	{"O15", "race-string-constant-runeStr", "s := \"héllo wörld\"; c := s[1] in two clones", probeO15},
 	{"O16", "race-sourcefileset-lastfile", "run-time error inside a source module called from (main)", probeO16},
 	{"C08-K1", "replace-builtin-module-on-cloned-original", "cl := c.Clone(); c.ReplaceBuiltinModule(\"mod\", {id: 99}); cl.Run()", probeK1},
+	{"C08-K2", "builtin-module-container-attribute-shared-by-clones", "builtin module cfg {list: [1,2,3]}; clone a: cfg.list[0] = 77; clone b: out := cfg.list[0]", probeK2},
 }
 
 func runC08Probes() {
